@@ -10,6 +10,7 @@ mod c05;
 mod c10;
 mod c11;
 mod c12;
+mod c14;
 mod c15;
 mod c16;
 mod c18;
@@ -38,6 +39,7 @@ fn main() {
         "c18" => c18::run(seed, count, &outdir).unwrap(),
         "c19" => c19::run(seed, count, &outdir).unwrap(),
         "c16" => c16::run(seed, count, &outdir).unwrap(),
+        "c14" => c14::run(seed, count, &outdir).unwrap(),
         "c15" => c15::run(seed, count, &outdir).unwrap(),
         "c20" => c20::run(seed, count, &outdir).unwrap(),
         "c02" => c02::run(seed, count, &outdir).unwrap(),
